@@ -13,6 +13,14 @@ A(tag, s, typ, p) == [k |-> "audit", tag |-> tag, sess |-> s, typ |-> typ, pid |
 KS == [k |-> "cleanS", c |-> 1]
 KL == [k |-> "cleanL", c |-> 1]
 
+\* the probe: an event of every session, a new login for every pid, an event of every session again
+Probe(ps, ss) ==
+    [i \in 1..Len(ss) |-> A(100 + i, ss[i], "OTHER", 0)]
+    \o [i \in 1..Len(ps) |-> L(100 + i, ps[i])]
+    \o [i \in 1..Len(ss) |-> A(200 + i, ss[i], "OTHER", 0)]
+Probe1 == Probe(<<1>>, <<"s1", "s2">>)
+Probe2 == Probe(<<1, 2>>, <<"s1", "s2">>)
+
 \* login || LOGIN record + follow-up || event of another session
 P1 == << <<L(1, 1)>>, <<A(1, "s1", "LOGIN", 1), A(2, "s1", "OTHER", 0)>>, <<A(3, "s2", "OTHER", 0)>> >>
 \* parse goroutine || maintain goroutine delivering events of one session || login
@@ -33,9 +41,15 @@ P7 == << <<L(1, 1)>>, <<L(2, 2)>>, <<A(1, "s1", "LOGIN", 1), A(2, "s2", "LOGIN",
 P8 == << <<L(1, 1), L(2, 1)>>, <<A(1, "s1", "LOGIN", 1), A(2, "s1", "CRED_DISP", 0), A(3, "s2", "LOGIN", 1)>>,
          <<A(4, "s2", "OTHER", 0)>> >>
 
-Programs == << [name |-> "P1", threads |-> P1], [name |-> "P2", threads |-> P2], [name |-> "P3", threads |-> P3],
-               [name |-> "P4", threads |-> P4], [name |-> "P5", threads |-> P5], [name |-> "P6", threads |-> P6],
-               [name |-> "P7", threads |-> P7], [name |-> "P8", threads |-> P8] >>
+\* login || records || login-cache cleanup only (a lost LOGIN record cannot hide behind session cleanup)
+P9 == << <<L(1, 1)>>, <<A(1, "s1", "LOGIN", 1), A(2, "s1", "OTHER", 0)>>, <<KL>> >>
+\* login || records || session cleanup only
+P10 == << <<L(1, 1)>>, <<A(1, "s1", "LOGIN", 1), A(2, "s1", "OTHER", 0)>>, <<KS>> >>
+
+Programs == << [name |-> "P1", threads |-> P1, post |-> Probe1], [name |-> "P2", threads |-> P2, post |-> Probe1], [name |-> "P3", threads |-> P3, post |-> Probe1],
+               [name |-> "P4", threads |-> P4, post |-> Probe2], [name |-> "P5", threads |-> P5, post |-> Probe1], [name |-> "P6", threads |-> P6, post |-> Probe1],
+               [name |-> "P7", threads |-> P7, post |-> Probe2], [name |-> "P8", threads |-> P8, post |-> Probe1],
+               [name |-> "P9", threads |-> P9, post |-> Probe1], [name |-> "P10", threads |-> P10, post |-> Probe1] >>
 
 ASSUME PrintT(<<"PROGS", ToJson(Programs)>>)
 =============================================================================
